@@ -501,6 +501,124 @@ func (cw *c12Worker) opReadFile() {
 	cw.w.count("op/readfile-"+cname, 1)
 }
 
+// opEncoderFile: an Encoder of its own (generic NewEncoderFor, any compression, small
+// blocks) into a private buffer; what it wrote is then read back and compared.
+func (cw *c12Worker) opEncoderFile() {
+	it := cw.w.items[cw.rng.Intn(len(cw.w.items))]
+	mk, ok := encTable[it.name]
+	if !ok || len(it.vals) == 0 {
+		return
+	}
+	comp := []avro.Compression{avro.CompressionNull, avro.CompressionDeflate, avro.CompressionSnappy}[cw.rng.Intn(3)]
+	var buf bytes.Buffer
+	var idx []int
+	err := func() (err error) {
+		defer func() {
+			if p := recover(); p != nil {
+				err = fmt.Errorf("PANIC: %v", p)
+			}
+		}()
+		enc, err := mk(&buf, comp, 1+cw.rng.Intn(200))
+		if err != nil {
+			return err
+		}
+		for n := 2 + cw.rng.Intn(12); n > 0; n-- {
+			k := cw.rng.Intn(len(it.vals))
+			idx = append(idx, k)
+			if err := enc.Encode(it.vals[k]); err != nil {
+				return err
+			}
+			if cw.rng.Intn(4) == 0 {
+				if err := enc.Flush(); err != nil {
+					return err
+				}
+			}
+		}
+		return enc.Flush()
+	}()
+	if err != nil {
+		key := "concurrent-result-differs"
+		if isPanicErr(err) {
+			key = "concurrent-panic"
+		}
+		cw.fail(key, fmt.Sprintf("Encoder[%s] (%s) into a private buffer: %v", it.name, comp, err))
+		return
+	}
+	rt := it.g.RType()
+	n := 0
+	rerr := func() (err error) {
+		defer func() {
+			if p := recover(); p != nil {
+				err = fmt.Errorf("PANIC: %v", p)
+			}
+		}()
+		return avro.ReadFile(bytes.NewReader(buf.Bytes()), reflect.New(rt).Elem().Interface(), func(val unsafe.Pointer, rb *avro.ResourceBank) error {
+			v := reflect.NewAt(rt, val).Elem()
+			if n < len(idx) {
+				if eq, where := normEq(it.g, it.wants[idx[n]], v); !eq {
+					cw.fail("concurrent-result-differs", fmt.Sprintf("a file written by a private Encoder[%s] (%s) reads back differently at record %d, %s", it.name, comp, n, where))
+				}
+			}
+			n++
+			rb.Close()
+			return nil
+		})
+	}()
+	if rerr != nil || n != len(idx) {
+		cw.fail("concurrent-result-differs", fmt.Sprintf("a file written by a private Encoder[%s] (%s) does not read back: %v, %d of %d records", it.name, comp, rerr, n, len(idx)))
+	}
+	cw.w.count("op/encoder-file-"+string(comp), 1)
+}
+
+// opForeignLookup: builds a codec that consults the registry for ANOTHER goroutine's
+// private type while its owner may be registering it.  Either answer is legitimate
+// (the result is not compared); the round's final check is that no registration is lost.
+func (cw *c12Worker) opForeignLookup() {
+	k := cw.rng.Intn(len(c12PrivTypes))
+	if k/2 == cw.g {
+		return
+	}
+	_ = cw.regLookupQuiet(k)
+	cw.w.count("op/foreign-lookup", 1)
+}
+
+func (cw *c12Worker) regLookupQuiet(key int) (out string) {
+	defer func() {
+		if p := recover(); p != nil {
+			out = "panic"
+		}
+	}()
+	ht := c12Holder(c12PrivTypes[key])
+	codec, err := c12RecordSchema(avro.Schema{Type: "long"}).Codec(reflect.New(ht).Elem().Interface())
+	if err != nil || codec == nil {
+		return "none"
+	}
+	return "some"
+}
+
+// opTzStress: a burst of timestamps over the whole grid of zone offsets (every quarter
+// hour from -23:45 to +23:45, and odd minutes), each compared with its arithmetic.
+func (cw *c12Worker) opTzStress() {
+	for i := 0; i < 600; i++ {
+		var offMin int
+		if cw.rng.Intn(4) == 0 {
+			offMin = cw.rng.Intn(2*1439+1) - 1439
+		} else {
+			offMin = 15 * (cw.rng.Intn(2*95+1) - 95)
+		}
+		t, err := cw.parseTime(offMin * 60)
+		if err != nil {
+			cw.fail("concurrent-result-differs", fmt.Sprintf("timestamp with zone offset %d min: %v", offMin, err))
+			return
+		}
+		if _, o := t.Zone(); o != offMin*60 {
+			cw.fail("concurrent-result-differs", fmt.Sprintf("timestamp with zone offset %d min parsed with offset %d s", offMin, o))
+			return
+		}
+	}
+	cw.w.count("op/tz-stress", 1)
+}
+
 func (cw *c12Worker) opCloseOthers() {
 	for i := 0; i < 4; i++ {
 		select {
@@ -811,9 +929,15 @@ func c12ChildMain(r *Run) {
 						cw.opEncode()
 					case r < 70:
 						cw.opBuild()
-					case r < 85:
+					case r < 82:
 						cw.opReadFile()
-					case r < 95:
+					case r < 87:
+						cw.opEncoderFile()
+					case r < 90:
+						cw.opForeignLookup()
+					case r < 92:
+						cw.opTzStress()
+					case r < 96:
 						cw.opCloseOthers()
 					default:
 						runtime.Gosched()
@@ -865,6 +989,23 @@ func c12ChildMain(r *Run) {
 					mirror.sreg[k] = v
 				}
 			}
+		}
+		// after the round, alone: every registration made during it is in force (a lookup by
+		// another goroutine that overlapped it may have seen the old or the new state, but
+		// nothing it did may make the registration disappear)
+		{
+			cw := &c12Worker{w: w, round: round, g: -1, rng: rand.New(rand.NewSource(1)), mirror: mirror}
+			for k := range c12PrivTypes {
+				want := mirror.expect(c12Step{Kind: "reglookup", Key: k})
+				if got := cw.regLookup(k); got != want {
+					cw.fail("concurrent-result-differs", fmt.Sprintf("after the round the codec registry answers %s for private type %d, the last registration says %s", got, k, want))
+				}
+				wantS := mirror.expect(c12Step{Kind: "sreglookup", Key: k})
+				if got := cw.sregLookup(k); got != wantS {
+					cw.fail("concurrent-result-differs", fmt.Sprintf("after the round the schema registry answers %s for private type %d, the last registration says %s", got, k, wantS))
+				}
+			}
+			resp.Counts["final-registry-checks"]++
 		}
 		resp.Indep = append(resp.Indep, cList(progCoq))
 		resp.Counts["rounds"]++
